@@ -1,5 +1,5 @@
 (* Properties/C05.v -- defs write at the call site; buffering, capture and calls with content *)
-From MakoV Require Import Lib.Str Model.Core Proofs.CoreProofs Proofs.CoreMore.
+From MakoV Require Import Lib.Str Model.Core Proofs.CoreProofs Proofs.CoreMore Proofs.CoreGeneral.
 
 (* for every set of defs, every construct (calls by name, captures, calls with content nested in any
    way, caller.body() any number of times, try blocks), every state inside a render function and every
@@ -44,6 +44,17 @@ Print Assumptions C05_body_invoked_twice.
 
 (* non-vacuity: a call with content whose callee is filtered and asks for the body twice; the body
    calls a def and probes *)
+
+(* from any state inside a render function -- also one in which a caller is waiting in nextcaller for a call whose arguments are
+   being evaluated -- every construct, in every outcome, leaves the caller stack and nextcaller as they were, adds or loses no
+   buffer and lets only the buffer on top grow (no hypothesis on nextcaller: true since a call with content puts the slot back
+   instead of clearing it, fix 98e6214) *)
+Theorem C05_render_state_preserved : forall defs fuel w me n s,
+  bufs s <> [] -> w = writer_of s ->
+  grows s (fst (fst (exec defs fuel w me n s))) /\ nextcaller (fst (fst (exec defs fuel w me n s))) = nextcaller s.
+Proof. exact render_state_preserved. Qed.
+Print Assumptions C05_render_state_preserved.
+
 Example C05_nonvacuous :
   render [ {| d_body := [NText (s2l "B"); NCallerBody; NCallerBody]; d_buffered := false; d_filtered := true |};
            {| d_body := [NText (s2l "c")]; d_buffered := true; d_filtered := false |} ]
